@@ -268,9 +268,10 @@ def run(ctx):
                              jobs=8 if ctx.quick else 9)
         g, cases, findings = fut.result()
     no_wrapped_rejects(ctx, "blend")
-    if stats.get("grid") != g or stats.get("grid_cases_per_operation") != cases:
-        raise ToolError("the harness enumerated grid %s (%s cases per operation), the model %d (%d)" % (
-            stats.get("grid"), stats.get("grid_cases_per_operation"), g, cases))
+    # the harness counts the distinct per-channel cases it actually executed (per mode/operator, LinSrgb<f64>, Alpha form)
+    if stats.get("grid") != g or stats.get("grid_cases_per_operation") != cases or stats.get("operations") != len(ALL_OPS) - 1:
+        raise ToolError("the harness executed grid %s: %s cases for each of %s operations; the model has %d cases for each of %d" % (
+            stats.get("grid"), stats.get("grid_cases_per_operation"), stats.get("operations"), cases, len(ALL_OPS) - 1))
     ctx.cov["traces_validated_against_impl"] += res.events - len(res.rejected)
     add_samples(ctx, tp, n=5, every=7919)
     by_class = {}
